@@ -322,6 +322,44 @@ def negate(term):
     return ("not", term)
 
 
+_STR_METHODS = ("lower", "upper", "title", "capitalize", "strip", "casefold", "swapcase")
+
+
+def fold_consts(term):
+    """Fold pure operations on literal constants: f-strings of constants, case/strip methods of constant strings,
+    and comprehensions over displays of constants (expanded into the display they build)."""
+
+    def f(tm):
+        if tm[0] == "fstr":
+            out = ""
+            for part in tm[1]:
+                if part[0] == "const":
+                    out += str(part[1])
+                elif part[0] == "fmt" and part[1][0] == "const" and part[2] in (-1, None) and part[3] is None:
+                    out += format(part[1][1])
+                else:
+                    return None
+            return ("const", out)
+        if tm[0] == "call" and tm[1][0] == "attr" and tm[1][1][0] == "const" and isinstance(tm[1][1][1], str) and tm[1][2] in _STR_METHODS and not tm[2] and not tm[3]:
+            return ("const", getattr(tm[1][1][1], tm[1][2])())
+        if tm[0] == "binop" and tm[1] == "+" and tm[2][0] == "const" and tm[3][0] == "const" and isinstance(tm[2][1], str) and isinstance(tm[3][1], str):
+            return ("const", tm[2][1] + tm[3][1])
+        if tm[0] == "comp" and len(tm[3]) == 1 and not tm[4] and tm[3][0][0][0] in ("tuple", "list") and all(x[0] == "const" for x in tm[3][0][0][1]):
+            src = tm[3][0][0]
+            items = [fold_consts(rewrite(tm[2], lambda x, it=it: it if x == ("elem", src) else None)) for it in src[1]]
+            if tm[1] == "dict":
+                return ("dict", tuple((i[1], i[2]) for i in items))
+            if tm[1] in ("list", "set"):
+                return (tm[1], tuple(items))
+        return None
+
+    prev = None
+    while prev != term:
+        prev = term
+        term = rewrite(term, f)
+    return term
+
+
 def merge_class_tests(term):
     """`isinstance(x, A) or isinstance(x, B)` is the same test as `isinstance(x, (A, B))` (same for issubclass): adjacent
     disjuncts on one subject are merged so that rules see one canonical spelling."""
